@@ -4,6 +4,10 @@ Local Open Scope Z_scope.
 
 Inductive pat := PGlider | PBlock | PBlinker.
 
+(* one cpl.evolve2d(hist, timesteps=T, apply_rule=cpl.game_of_life_rule, neighbourhood=ty, memoize=memo) call
+   inside a sequence of calls made back to back in one process with the same function object *)
+Inductive seq_call := SeqCall (ty : nbhd_type) (hist : list grid) (T memo : nat) (obs : res (list grid)).
+
 Inductive case :=
 (* cpl.game_of_life_rule(block, (1, 1), 1) on a 3x3 block; masked = wrapped in a MaskedArray with an
    all-False mask.  The observation is None (Python returned None) or the returned integer. *)
@@ -15,7 +19,10 @@ Inductive case :=
    harness built), evolved for T timesteps *)
 | CPattern (p : pat) (R C : nat) (a b : Z) (g0 : grid) (T : nat) (memo : nat) (obs : res (list grid))
 (* np.roll(g, (da, db), axis=(0, 1)) *)
-| CRoll (g : grid) (da db : Z) (obs : grid).
+| CRoll (g : grid) (da db : Z) (obs : grid)
+(* 2-4 evolve2d calls in one process, same rule object, mixed neighbourhood types and memoize modes:
+   what an earlier call did must not change what a later one returns *)
+| CSequence (calls : list seq_call).
 
 (* what the theorems say the k-th grid of the evolution of a placed pattern is (k <= 4 for the glider) *)
 Definition pattern_at (p : pat) (R C : nat) (a b : Z) (k : nat) : grid :=
@@ -34,7 +41,13 @@ Definition pattern_at (p : pat) (R C : nat) (a b : Z) (k : nat) : grid :=
 
 Definition drop_state {A B} (r : res (A * B)) : res B := bind r (fun p => Ok (snd p)).
 
-Inductive out := ORule (r : res (option Z)) | OGrids (r : res (list grid)) | OGrid (g : grid).
+Inductive out := ORule (r : res (option Z)) | OGrids (r : res (list grid)) | OGrid (g : grid)
+                 | OSeq (rs : list (res (list grid))).
+
+(* a call of a sequence, on the memoize=False engine.  For 'von Neumann' the neighbourhood object is
+   masked: np.sum adds the five unmasked entries, the centre n[1][1] is unmasked (gol_rule_nb). *)
+Definition seq_model (c : seq_call) : res (list grid) :=
+  match c with SeqCall ty hist T _ _ => drop_state (evolve2d_plain gol_as_rule2 store_id 1 ty tt hist T) end.
 
 (* model output, printable *)
 Definition model_out (c : case) : out :=
@@ -43,6 +56,7 @@ Definition model_out (c : case) : out :=
   | CEvolve hist T _ _ => OGrids (drop_state (life_evolve hist T))
   | CPattern p R C a b g0 T _ _ => OGrids (drop_state (life_evolve [g0] T))
   | CRoll g da db _ => OGrid (roll_grid da db g)
+  | CSequence calls => OSeq (map seq_model calls)
   end.
 
 Definition optz_eqb (a b : option Z) : bool :=
@@ -62,4 +76,11 @@ Definition check_case (c : case) : bool :=
       && res_eqb_anyexc zhist_eqb (drop_state (life_evolve [g0] T)) obs
       && res_eqb_anyexc zhist_eqb (Ok (map (pattern_at p R C a b) (seq 0 T))) obs
   | CRoll g da db obs => zgrid_eqb (roll_grid da db g) obs
+  | CSequence calls =>
+      (* the property speaks about Life = the Moore calls; the von Neumann calls are only there to have
+         happened before *)
+      forallb (fun c => match c with
+                        | SeqCall Moore _ _ _ obs => res_eqb_anyexc zhist_eqb (seq_model c) obs
+                        | SeqCall VonNeumann _ _ _ _ => true
+                        end) calls
   end.
